@@ -217,7 +217,16 @@ impl<'a> World<'a> {
             let p = &obj.object;
             let revs: Vec<(patch::RevisionId, &patch::Revision)> = p.revisions().collect();
             let busy: Vec<(patch::RevisionId, &patch::Revision)> = revs.iter().copied().filter(|(_, rv)| rv.discussion().comments().count() + rv.reviews().count() > 0).collect();
-            let (rev, revision) = if !busy.is_empty() && self.ch.pick(3) != 2 { busy[self.ch.pick_usize(busy.len())] } else { revs[self.ch.pick_usize(revs.len())] };
+            // first choice: a revision of the writer's own that somebody else reviewed or commented on
+            let mine: Vec<(patch::RevisionId, &patch::Revision)> = revs.iter().copied().filter(|(_, rv)| *rv.author().id().as_key() == nid && (rv.reviews().any(|(k, _)| *k != nid) || rv.discussion().comments().any(|(_, c)| c.author() != nid))).collect();
+            let on_own_revision = !mine.is_empty() && self.ch.pick(4) != 3;
+            let (rev, revision) = if on_own_revision {
+                mine[self.ch.pick_usize(mine.len())]
+            } else if !busy.is_empty() && self.ch.pick(3) != 2 {
+                busy[self.ch.pick_usize(busy.len())]
+            } else {
+                revs[self.ch.pick_usize(revs.len())]
+            };
             let mut rcomments: Vec<Oid> = revision.discussion().comments().map(|(c, _)| *c).collect();
             let mut reviews: Vec<patch::ReviewId> = revision.reviews().map(|(_, rv)| rv.id()).collect();
             if self.ch.pick(4) != 3 {
@@ -232,7 +241,7 @@ impl<'a> World<'a> {
                 }
             }
             let p_author: PublicKey = *p.author().id().as_key();
-            let act: patch::Action = match if !rcomments.is_empty() && self.ch.pick(2) == 0 { 5 + self.ch.pick(2) } else if !reviews.is_empty() && self.ch.pick(2) == 0 { 7 + self.ch.pick(2) } else { self.ch.pick(11) } {
+            let act: patch::Action = match if on_own_revision && !reviews.is_empty() && self.ch.pick(3) != 2 { 7 + self.ch.pick(2) } else if !rcomments.is_empty() && self.ch.pick(2) == 0 { 5 + self.ch.pick(2) } else if !reviews.is_empty() && self.ch.pick(2) == 0 { 7 + self.ch.pick(2) } else { self.ch.pick(11) } {
                 0 => {
                     kind = "edit-title";
                     owner = Some(p_author);
